@@ -176,6 +176,16 @@ def norm_field(f):
     return f
 
 
+def signature(c):
+    """what a finding is matched on: the (normalized) field and, for the leaves of a route, the context selectors that decide
+    which validator / rendering site applies: kind of the route path and kind of location (harness leafContext)"""
+    sig = {"kind": "injection", "field": norm_field(c["field"])}
+    m = re.match(r'^vsr?:(prefix|regex|iregex|exact):([a-z+-]+):up=', c.get("ctx") or "")
+    if m:
+        sig["path_kind"], sig["loc"] = m.group(1), m.group(2)
+    return sig
+
+
 def slim(c):
     d = {k: v for k, v in c.items() if k != "obs"}
     o = dict(c["obs"])
@@ -251,9 +261,9 @@ def judge(run, bases, cases, rows, verbose=False):
             class_violations(run, "fixture %s/%s, %s = %r" % (c["fixture"], "plus" if c["plus"] else "oss", c["path"], bytes_of(c["value"]).decode("latin1")),
                              o.get("class_violations"), c)
         if not spec:
-            run.failing({"kind": "injection", "field": norm_field(c["field"])}, [slim(c)],
-                        "structure of the generated configuration changed by an ACCEPTED value of %s (fixture %s/%s, %s = %r, harmless %s %r): %s"
-                        % (c["field"], c["fixture"], "plus" if c["plus"] else "oss", c["path"], bytes_of(c["value"]).decode("latin1"), c["harmless_kind"],
+            run.failing(signature(c), [slim(c)],
+                        "structure of the generated configuration changed by an ACCEPTED value of %s [context %s] (fixture %s/%s, %s = %r, harmless %s %r): %s"
+                        % (c["field"], c.get("ctx") or "-", c["fixture"], "plus" if c["plus"] else "oss", c["path"], bytes_of(c["value"]).decode("latin1"), c["harmless_kind"],
                            bytes_of(c["harmless"]).decode("latin1"), context(base, c)),
                         theorem="Tmpl.C06Cases.spec_ok_file (structural events of Lex.Lexer.run)")
         elif not agree:
@@ -303,6 +313,57 @@ def regex_correspondence(run, regs, sink):
         ok = not b and len(r.get("rows") or []) > 0
         sink.append(("obl", ok, "regex transcription %s agrees with Go regexp on %d one-byte perturbations of accepted samples" % (name, per.get(name, 0)),
                      "Tmpl.Validators disagrees with the real regular expression: %s" % (b[:4] if b else "no sample of this expression is accepted any more")))
+
+
+def selector_correspondence(run, sels, sink):
+    """X for the selector table of action.proxy.rewritePath (Tmpl.Validators.rewrite_path_lang / rewrite_path_site):
+    per kind of route path x kind of location, the real validator's verdict on every one-byte perturbation of accepted
+    samples against rewrite_path_accepts, and the tokenizer state where the real generator printed the value against
+    rewrite_path_site"""
+    if not sels:
+        return
+    body = "From NIC Require Import Lex.Lexer Tmpl.Regex Tmpl.Validators Tmpl.C06Regex.\n"
+    rows, idx = [], []
+    for k, r in enumerate(sels):
+        for j, w in enumerate(r.get("rows") or []):
+            rows.append("selector_sweep_row %s %s %s %d %d \"%s\"" % (r["kind"], r["loc"], C.cq_bytes(list(w["sample"] or [])), w["pos"], w["mode"], w["bits"]))
+            idx.append((k, j))
+        rows.append("selector_site_row %s %s %s" % (r["kind"], r["loc"], r["site"] if r.get("site") else "QErr"))
+        idx.append((k, -1))
+    chunks = [rows[i:i + 120] for i in range(0, len(rows), 120)]
+    for ci, ch in enumerate(chunks):
+        body += "Definition results%d : list (list Z) := Eval vm_compute in [[" % ci + ";\n ".join(ch) + "]].\nPrint results%d.\n" % ci
+    path = os.path.join(C.WORK, "cases", "C06_selectors_%s.v" % run.tier)
+    C.write_cases_v(path, body)
+    rc, out = C.coqc(path, timeout=900)
+    flat = []
+    for ci in range(len(chunks)):
+        res = C.parse_z_lists(out, "results%d" % ci)
+        if rc != 0 or not res:
+            raise C.TieBroken("coqc could not evaluate the C06 selector correspondence file (%s): %s" % (path, out[-1500:]))
+        flat += res[0]
+    bad, site_ok, n = {}, {}, {}
+    for (k, j), v in zip(idx, flat):
+        r = sels[k]
+        name = "%s x %s" % (r["kind"], r["loc"])
+        if j < 0:
+            site_ok[name] = (v == 1)
+            continue
+        n[name] = n.get(name, 0) + 256
+        if v != 0:
+            w = r["rows"][j]
+            bad.setdefault(name, []).append("sample %r %s at %d: %s byte values disagree" % (
+                bytes_of(w["sample"]).decode("latin1"), "insert" if w["mode"] == 0 else "replace", w["pos"], v))
+    sink.append(("cov", "selector_table", {"field": "action.proxy.rewritePath", "rows": len(sels), "strings": sum(n.values())}))
+    for r in sels:
+        name = "%s x %s" % (r["kind"], r["loc"])
+        b = bad.get(name)
+        sink.append(("obl", not b and not r.get("error") and n.get(name, 0) > 0,
+                     "selector table: the validator language of action.proxy.rewritePath for %s is Tmpl.Validators.rewrite_path_lang (%d perturbations)" % (name, n.get(name, 0)),
+                     "the real validator (ValidateVirtualServer) and rewrite_path_accepts disagree: %s %s" % (b[:4] if b else "", r.get("error") or "")))
+        sink.append(("obl", bool(site_ok.get(name)) and not r.get("error"),
+                     "selector table: the rendering site of action.proxy.rewritePath for %s is Tmpl.Validators.rewrite_path_site" % name,
+                     "the real generator printed the value in tokenizer state %s %s" % (r.get("site") or "(not found)", r.get("error") or "")))
 
 
 def translate_templates(run):
@@ -453,10 +514,11 @@ def check(run):
     cases = [r for r in recs if r["rec"] == "case"]
     sums = [r for r in recs if r["rec"] == "summary"]
     inv = [r for r in recs if r["rec"] == "inventory"][0]
-    side = concurrent.futures.ThreadPoolExecutor(max_workers=2)
-    sink_r, sink_c = [], []
+    side = concurrent.futures.ThreadPoolExecutor(max_workers=3)
+    sink_r, sink_c, sink_s = [], [], []
     fut = [side.submit(regex_correspondence, run, [r for r in recs if r["rec"] == "regex"], sink_r),
-           side.submit(class_correspondence, run, ([r for r in recs if r["rec"] == "classes"] or [None])[0], sink_c)]
+           side.submit(class_correspondence, run, ([r for r in recs if r["rec"] == "classes"] or [None])[0], sink_c),
+           side.submit(selector_correspondence, run, [r for r in recs if r["rec"] == "selector"], sink_s)]
     for b in bases.values():
         if b.get("invalid") or b.get("errors") or not b.get("files"):
             run.failing({"kind": "fixture-invalid", "fixture": b["fixture"]}, [],
@@ -468,7 +530,7 @@ def check(run):
     rows = evaluate(bases, cases, run.tier)
     for f in fut:
         f.result()
-    for item in sink_r + sink_c:
+    for item in sink_r + sink_c + sink_s:
         if item[0] == "cov":
             run.cov[item[1]] = item[2]
         else:
@@ -484,6 +546,11 @@ def check(run):
                 tot[k] = tot.get(k, 0) + v
                 pf[k] = pf.get(k, 0) + v
     run.cov["candidates"] = tot
+    ctxs = {}
+    for s_ in sums:
+        for cx, n_ in (s_.get("contexts") or {}).items():
+            ctxs[cx] = ctxs.get(cx, 0) + n_
+    run.cov["context_selectors_crossed"] = {"distinct_contexts": len(ctxs), "field_x_context_pairs": sum(ctxs.values()), "contexts": dict(sorted(ctxs.items()))}
     run.cov["fields_attacked"] = len(per_field)
     run.cov["fields_where_payload_reaches_output"] = sorted(f for f, st in per_field.items() if st.get("differ"))[:400]
     run.cov["fixtures"] = sorted({"%s/%s" % (b["fixture"], "plus" if b["plus"] else "oss") for b in bases.values()})
